@@ -1483,6 +1483,82 @@ func ruleWSSpecOver(c *Ctx, text string, reach map[*ssa.Function]bool, minFuncs 
 		}
 		n++
 		eachInstr(fn, func(in ssa.Instruction) {
+			// an ordered comparison of an input byte with a constant that puts the space and every byte below it on
+			// the same side (c <= ' ', c < '!', c > ' ' …) treats NUL, VT, FF and the other control bytes as white space
+			if bo, ok := in.(*ssa.BinOp); ok {
+				var v ssa.Value
+				var k int64
+				op := bo.Op
+				if kk, ok := constInt(bo.Y); ok {
+					v, k = bo.X, kk
+				} else if kk, ok := constInt(bo.X); ok {
+					v, k = bo.Y, kk
+					switch op {
+					case token.LSS:
+						op = token.GTR
+					case token.LEQ:
+						op = token.GEQ
+					case token.GTR:
+						op = token.LSS
+					case token.GEQ:
+						op = token.LEQ
+					}
+				}
+				if v != nil {
+					if bt, ok := v.Type().Underlying().(*types.Basic); ok && (bt.Kind() == types.Uint8 || bt.Kind() == types.Int32) {
+						cmp := func(d int64) bool {
+							switch op {
+							case token.LSS:
+								return d < k
+							case token.LEQ:
+								return d <= k
+							case token.GTR:
+								return d > k
+							case token.GEQ:
+								return d >= k
+							}
+							return false
+						}
+						if op == token.LSS || op == token.LEQ || op == token.GTR || op == token.GEQ {
+							side := cmp(' ')
+							max, wide := int64(-1), false
+							for d := int64(0); d < 256; d++ {
+								if cmp(d) == side {
+									if d > max {
+										max = d
+									}
+									if d != ' ' && d != '\t' && d != '\n' && d != '\r' {
+										wide = true
+									}
+								}
+							}
+							if _, isParam := v.(*ssa.Parameter); isParam {
+								// a classifier's own parameter: its whole accept set is judged (wideWhitespaceClassifier, BSET)
+								wide = false
+							}
+							if max == ' ' && wide {
+								// confirm on the whole function: the bytes that take exactly the same branches as the space
+								// must all lie at or below it (a punctuation range '!' <= c && c <= '/' sends letters the same way)
+								eng := newBSET(p)
+								sig := func(d int64) string {
+									return eng.outcomeSig(fn, func(x ssa.Value) bool { return x == v }, d)
+								}
+								sp := sig(' ')
+								for d := int64(0x21); d < 256 && wide; d++ {
+									if sig(d) == sp {
+										wide = false
+									}
+								}
+							}
+							if max == ' ' && wide {
+								bad++
+								c.Viol("WS-SPEC", shortFuncName(fn)+":range-compare", in.Pos(), "an ordered comparison puts the space and every control byte (NUL, VT, FF, …) on the same side; at line level only space, tab, LF and CR are white space")
+							}
+						}
+					}
+				}
+				return
+			}
 			call, ok := in.(*ssa.Call)
 			if !ok {
 				return
